@@ -408,6 +408,62 @@ Proof.
     rewrite <- Ect, <- Emac, <- Eiv. rewrite Hmac. reflexivity.
 Qed.
 
+(* ---------- the allocation cap: the strict reading of "n" and "r" is what the scrypt pass decodes ---------- *)
+Lemma wellformed_alloc P t cf cc sp :
+  v3_wellformed t = true -> decode_content P t = Some (cf, cc, KScrypt sp) ->
+  doc_alloc_ok t = scrypt_alloc_ok (sp_n sp) (sp_r sp).
+Proof.
+  intros Hwf Hdec.
+  destruct t as [| | | | |top]; try discriminate.
+  cbn [v3_wellformed] in Hwf.
+  apply andb_true_iff in Hwf as [Hex Hwf].
+  destruct (field "version" top) as [[| |v| | |]|] eqn:Fv; try discriminate.
+  destruct (str_field "id" top) as [id|] eqn:Fid; try discriminate.
+  destruct (obj_field "crypto" top) as [cr|] eqn:Fc; try discriminate.
+  destruct (obj_field "cipherparams" cr) as [cp|] eqn:Fcp; [|split_andb; discriminate].
+  destruct (str_field "kdf" cr) as [kdf|] eqn:Fkdf; [|split_andb; discriminate].
+  destruct (obj_field "kdfparams" cr) as [kp|] eqn:Fkp; [|split_andb; discriminate].
+  split_andb.
+  match goal with H : exact_members _ cr = true |- _ => rename H into Hexcr end.
+  match goal with H : wf_kdfparams kdf kp = true |- _ => rename H into Hwkp end.
+  have_once top "crypto" Hex. have_once cr "kdf" Hexcr. have_once cr "kdfparams" Hexcr.
+  unfold doc_alloc_ok. rewrite Fc, Fkp.
+  unfold decode_content in Hdec.
+  destruct (decode_common P (JObj top)) as [[cf0 cc0]| |] eqn:Dc; try discriminate.
+  unfold decode_common, unmarshal_wallet in Dc. cbn [dec_object] in Dc.
+  pose proof (get_obj _ _ _ _ Dc "crypto" ltac:(assumption) _ _ cr (sw_crypto_ok P step_crypto_only) Fc) as Dcr.
+  cbn [snd] in Dcr.
+  assert (Hkdf : cc_kdf cc0 = kdf).
+  { exact (get_str _ _ _ _ Dcr "kdf" ltac:(assumption) _ kdf cc_kdf_ok Fkdf). }
+  rewrite Hkdf in Hdec. unfold wf_kdfparams in Hwkp.
+  destruct (bytes_eqb kdf kdfTypeScrypt) eqn:Ks.
+  2:{ destruct (bytes_eqb kdf kdfTypePbkdf2); [|discriminate].
+      destruct (decode_pbkdf2 P (JObj top)) as [[? [? ?]]| |]; discriminate. }
+  destruct (decode_scrypt P (JObj top)) as [[cf2 [cc2 sp2]]| |] eqn:Ds; try discriminate.
+  injection Hdec as <- <- <-.
+  unfold decode_scrypt, unmarshal_wallet in Ds. cbn [dec_object] in Ds.
+  pose proof (get_obj _ _ _ _ Ds "crypto" ltac:(assumption) _ _ cr (sw_crypto_ok P _) Fc) as Dcr2.
+  cbn [snd] in Dcr2.
+  pose proof (get_obj _ _ _ _ Dcr2 "kdfparams" ltac:(assumption) _ _ kp (cw_kdfparams_ok step_scrypt_params) Fkp) as Dkp.
+  cbn [snd] in Dkp.
+  split_andb.
+  match goal with H : wf_int "n" kp = true |- _ => apply wf_int_inv in H; destruct H as (zn & Fn) end.
+  match goal with H : wf_int "r" kp = true |- _ => apply wf_int_inv in H; destruct H as (zr & Fr) end.
+  match goal with H : exact_members _ kp = true |- _ => rename H into Hexkp end.
+  have_once kp "n" Hexkp. have_once kp "r" Hexkp.
+  rewrite Fn, Fr.
+  rewrite (get_int _ _ _ _ Dkp "n" ltac:(assumption) _ _ sp_n_ok Fn).
+  rewrite (get_int _ _ _ _ Dkp "r" ltac:(assumption) _ _ sp_r_ok Fr).
+  reflexivity.
+Qed.
+
+Lemma wellformed_capped P t : v3_wellformed t = true -> doc_alloc_ok t = true -> cost_capped P t = true.
+Proof.
+  intros Hwf Hc. unfold cost_capped.
+  destruct (decode_content P t) as [[[cf cc] [sp|pp]]|] eqn:Hd; try reflexivity.
+  cbn [kdf_cost_capped]. rewrite <- (wellformed_alloc P t cf cc sp Hwf Hd). exact Hc.
+Qed.
+
 (* ---------- no foreign key, against the independent specification ---------- *)
 Theorem no_foreign_key_gen (b : bool) P t pw w :
   v3_wellformed t = true -> read_wallet_tree P t pw = Ok w ->
